@@ -692,6 +692,7 @@ class GeoBox(PolygonBase):
             self.nw_bound == other.nw_bound
             and self.se_bound == other.se_bound
             and self.dt == other.dt
+            and self.holes == other.holes
         )
 
     def __hash__(self):
@@ -837,6 +838,7 @@ class GeoCircle(PolygonBase):
             self.center == other.center
             and self.radius == other.radius
             and self.dt == other.dt
+            and self.holes == other.holes
         )
 
     def __hash__(self) -> int:
